@@ -268,6 +268,19 @@ struct TruthModel {
 impl TruthModel {
     /// documented semantics of a delayed input stream: an increase repeats the last input for
     /// the frames it opens up, a decrease drops submissions until the queue has caught up.
+    /// an increase "repeats the last input for the frames it opens up" at the moment of the call
+    /// (that is when remote peers are told about those frames); nothing happens before the first
+    /// submission or on a decrease
+    fn set_delay(&mut self, h: usize, d: usize) {
+        if d > self.delay[h] && !self.truth[h].is_empty() {
+            for _ in 0..(d - self.delay[h]) {
+                let l = self.last[h];
+                self.truth[h].push(l);
+                self.next[h] += 1;
+            }
+        }
+        self.delay[h] = d;
+    }
     fn submit(&mut self, h: usize, user_frame: i32, v: u32) {
         if self.reg[h] == user_frame {
             return;
@@ -516,6 +529,23 @@ fn forge(net: &Net, to: Addr, from: Addr, kind: u8, a: i32, b: i32, bytes: &[u8]
             }
             push(m)
         }
+        // stray sync reply: random nonce, the sender's real magic
+        8 => {
+            let Some(t) = tany else { return false };
+            push(MMessage { header: t.header, body: MBody::SyncReply { random_reply: a as u32 ^ 0x5eed_0000 } })
+        }
+        // duplicate of the last real message if it is a sync reply (old, already consumed nonce)
+        9 => {
+            let Some(t) = tany else { return false };
+            if let MBody::SyncReply { random_reply } = t.body {
+                // a replayed genuine reply may overtake the original still in flight; for the
+                // handshake ledger it is the same reply arriving early
+                net.borrow_mut().link(from, to).ledger.sync_reply_delivered.push((now_ms(), random_reply));
+                push(t)
+            } else {
+                false
+            }
+        }
         _ => false,
     }
 }
@@ -654,7 +684,7 @@ pub fn run_typed<I: HInp, P: InputPredictor<I> + 'static>(sc: &Scenario, opts: &
                             if let Some(s) = pe.sess.as_mut() {
                                 let r = catch_unwind(AssertUnwindSafe(|| s.set_input_delay(h, *delay as usize)));
                                 match r {
-                                    Ok(Ok(())) => tm.delay[h] = *delay as usize,
+                                    Ok(Ok(())) => tm.set_delay(h, *delay as usize),
                                     Ok(Err(e)) => viols.push(Viol { prop: "C11", clause: "set_delay_err".into(), msg: format!("set_input_delay({h},{delay}) -> {e:?}"), node: format!("peer{o}"), tick }),
                                     Err(_) => {
                                         viols.push(Viol { prop: "PANIC", clause: format!("panic|{}", normalise(&take_panic())), msg: format!("set_input_delay({h},{delay}) panicked"), node: format!("peer{o}"), tick });
@@ -769,7 +799,7 @@ pub fn run_typed<I: HInp, P: InputPredictor<I> + 'static>(sc: &Scenario, opts: &
                     continue;
                 }
                 let skip = sc.sched != 0 && !settle && Rng(mix(mix(sc.seed ^ 0x510, node as u64), tick as u64)).chance(slow);
-                if skip {
+                if skip || sc.poll_only {
                     poll_peer(pe, tick, &mut viols);
                 } else {
                     tick_peer(sc, pe, &mut tm, tick, t0, total, &net, &mut viols, opts, vals, mp, &owners);
@@ -787,7 +817,7 @@ pub fn run_typed<I: HInp, P: InputPredictor<I> + 'static>(sc: &Scenario, opts: &
                     continue;
                 }
                 let skip = sc.sched != 0 && !settle && Rng(mix(mix(sc.seed ^ 0x511, node as u64), tick as u64)).chance(slow);
-                tick_spec(sp, i, skip, tick, total, host_conf, &mut viols, I::to_v);
+                tick_spec(sp, i, skip || sc.poll_only, tick, total, host_conf, &mut viols, I::to_v);
                 if sp.out.panicked {
                     aborted = true;
                 }
@@ -849,6 +879,12 @@ pub fn run_typed<I: HInp, P: InputPredictor<I> + 'static>(sc: &Scenario, opts: &
             out.net.delayed += l.ledger.delayed;
             out.net.ledgers.insert((*a, *b), l.ledger.clone());
         }
+        for pe in peers.iter_mut() {
+            pe.out.poll_times = n.recv_log.get(&pe.out.addr).cloned().unwrap_or_default();
+        }
+        for sp in specs.iter_mut() {
+            sp.out.poll_times = n.recv_log.get(&sp.out.addr).cloned().unwrap_or_default();
+        }
         out.net.forged = n.forged;
         out.net.trace = n.trace.clone();
     }
@@ -861,7 +897,6 @@ pub fn run_typed<I: HInp, P: InputPredictor<I> + 'static>(sc: &Scenario, opts: &
 
 fn poll_peer<I: HInp, P: InputPredictor<I> + 'static>(pe: &mut PeerRt<I, P>, tick: u32, viols: &mut Vec<Viol>) {
     let Some(s) = pe.sess.as_mut() else { return };
-    pe.out.poll_times.push(now_ms());
     let r = catch_unwind(AssertUnwindSafe(|| s.poll_remote_clients()));
     if r.is_err() {
         viols.push(Viol { prop: "PANIC", clause: format!("panic|{}", normalise(&take_panic())), msg: "poll_remote_clients panicked".into(), node: format!("peer{}", pe.idx), tick });
@@ -912,7 +947,6 @@ fn tick_peer<I: HInp, P: InputPredictor<I> + 'static>(
     pe.half = half;
     let owners: &[usize] = owners_all;
     let Some(s) = pe.sess.as_mut() else { return };
-    pe.out.poll_times.push(now_ms());
     let before = s.current_frame();
     let mut submitted: Vec<(usize, u32)> = Vec::new();
     for &h in &pe.out.handles {
@@ -1171,7 +1205,6 @@ fn tick_spec<I: HInp, P: InputPredictor<I> + 'static>(
     let node = format!("spec{i}");
     let half = if tick * 2 >= total { 1 } else { 0 };
     let Some(s) = sp.sess.as_mut() else { return };
-    sp.out.poll_times.push(now_ms());
     // poll first so frames_behind_host() is what advance_frame() will see
     if catch_unwind(AssertUnwindSafe(|| s.poll_remote_clients())).is_err() {
         viols.push(Viol { prop: "PANIC", clause: format!("panic|{}", normalise(&take_panic())), msg: "spectator poll panicked".into(), node, tick });
@@ -1328,9 +1361,6 @@ fn misuse<I: HInp, P: InputPredictor<I> + 'static>(pe: &mut PeerRt<I, P>, kind: 
             pe.out.alive = false;
             pe.out.panicked = true;
         }
-    }
-    if kind == 1 || kind == 99 {
-        pe.out.poll_times.push(now_ms());
     }
     after_call(pe, pe.half);
 }
